@@ -87,6 +87,7 @@ func genC15(r *h.Rand, tier string) []h.Case {
 			cmd := sx.L(sx.A("resolve-seq"), sx.Bool(r.Chance(40)))
 			k := 2 + r.Intn(4)
 			w1, w2 := r.Pick([]string{"blog", "a", "dir", "é"}), r.Pick([]string{"post.jet", "b.jet", "x", "b"})
+			usedSib := map[string]bool{}
 			for j := 0; j < k; j++ {
 				var nm, sib string
 				via := r.Pick([]string{"include", "extends", "import", "include-computed", "gettemplate"})
@@ -102,7 +103,12 @@ func genC15(r *h.Rand, tier string) []h.Case {
 				}
 				if via == "gettemplate" {
 					sib = "/"
+				} else if usedSib[sib] {
+					// a referring template is written once per history: outside development mode the Set
+					// would serve its first body from the cache, and the second name would never be looked up
+					continue
 				}
+				usedSib[sib] = true
 				cmd.Add(sx.L(sx.S(nm), sx.S(sib), sx.A(via)))
 			}
 			cs = append(cs, h.Case{Stream: "resolve-history", Cmd: cmd, NonTrivial: true, Tags: []string{"history"}})
